@@ -249,6 +249,8 @@ def r193(repo, ctx):
             ev0 = ME.Evaluator({'self': ME.Token('self')})
             ev0.run(stmts[:k])
             start = {n: v for n, v in ev0.env.items() if n != 'self'}
+            if any(isinstance(v, (list, dict, set)) for v in start.values()):
+                raise ME.Unknown('the fold accumulates into a container: its state space is not finite')
             seen = {}
             work = [(tuple(sorted(start.items(), key=lambda kv: kv[0])), (False, True, False), ())]
             while work:
@@ -501,6 +503,33 @@ def r196(repo, ctx):
                 if isinstance(v, ast.Call) and isinstance(v.func, ast.Attribute) and v.func.attr == 'satisfiedTime' and not v.args and _is_item(v.func.value, idx, item) \
                         and any(x.value.id == st.targets[0].value.id for x in rets):
                     good = True
+    if not good:
+        # comprehension form: np.fromiter / np.array / list of  cond.satisfiedTime()  over the registered conditions, returned
+        binds = {st.targets[0].id: st.value for st in ast.walk(f) if isinstance(st, ast.Assign) and len(st.targets) == 1 and isinstance(st.targets[0], ast.Name)}
+
+        def res(e, depth=0):
+            while isinstance(e, ast.Name) and e.id in binds and depth < 6:
+                e, depth = binds[e.id], depth + 1
+            return e
+        for x in ast.walk(f):
+            if not (isinstance(x, ast.Return) and x.value is not None):
+                continue
+            v = res(x.value)
+            if isinstance(v, ast.Call) and (U.call_name(v) or '') in ('np.fromiter', 'np.array', 'np.asarray', 'list') and v.args:
+                v = res(v.args[0])
+            if isinstance(v, (ast.GeneratorExp, ast.ListComp)) and len(v.generators) == 1 and not v.generators[0].ifs:
+                g_ = v.generators[0]
+                e_ = v.elt
+                if isinstance(e_, ast.Call) and isinstance(e_.func, ast.Attribute) and e_.func.attr == 'satisfiedTime' and not e_.args and isinstance(g_.target, ast.Name):
+                    it = res(g_.iter)
+                    recv = e_.func.value
+                    if U.chain(it) == ('self', 'stopConds') and isinstance(recv, ast.Name) and recv.id == g_.target.id:
+                        good = True
+                    if isinstance(it, ast.Call) and U.call_name(it) == 'range' and len(it.args) == 1:
+                        n_ = res(it.args[0])
+                        if isinstance(n_, ast.Call) and U.call_name(n_) == 'len' and U.chain(n_.args[0]) == ('self', 'stopConds') \
+                                and isinstance(recv, ast.Subscript) and U.chain(recv.value) == ('self', 'stopConds') and isinstance(recv.slice, ast.Name) and recv.slice.id == g_.target.id:
+                            good = True
     ctx.check(good, 'R19.6', TTP, 'TTPCalculator._getStopTime', f, 'the reported times are the crossing times of the conditions', 'the reported times are not the crossing times of the conditions')
 
 
